@@ -1071,6 +1071,13 @@ type tbLegacyWriter struct {
 	problems   []string
 	keyConsts  map[*types.Const]bool
 	nParts     map[string]int // key -> number of value parts written
+	gates      []tbGate       // conditions under which a token is written that test another field
+}
+
+// tbGate: the token for key is written only under a condition on a field that is not one of the token's own.
+type tbGate struct {
+	key, field, other string
+	pos               token.Pos
 }
 
 func tbLegacyWrites(c *Ctx, p *packages.Package, fd *ast.FuncDecl) *tbLegacyWriter {
@@ -1526,6 +1533,14 @@ func tbC15Legacy(c *Ctx, p *packages.Package, attrs *types.Named) {
 	}
 	for _, pr := range r.problems {
 		c.Und(rule, "UnmarshalLegacy|every read is understood", c.w.Pos(ul.Pos()), pr)
+	}
+	// a token is written whenever its own field is set: no condition on another field gates it
+	for _, g := range w.gates {
+		c.Bad(rule, fmt.Sprintf("key %q|written whenever its field is set", g.key), c.w.Pos(g.pos),
+			fmt.Sprintf("the token %s=<%s> is written only under a condition on %s: with that field unset the value is silently dropped and decodes as zero", g.key, g.field, g.other))
+	}
+	if len(w.gates) == 0 && len(w.pairs) > 0 {
+		c.Ok(rule, "MarshalLegacy|every token written whenever its field is set", c.w.Pos(ml.Pos()), fmt.Sprintf("%d written tokens are gated by their own fields (and the presence of their parent) only", len(w.pairs)))
 	}
 
 	// interface version: threshold of Marshal and the constant element(s) of the initial list
